@@ -525,6 +525,17 @@ def proof_stage(rep, prop_file, extra_targets=(), allowed_axioms=(), translators
         else:
             failed.append((n, a))
     rep.coverage["discharged"] = discharged
+    if rep.tier == "thorough" and not failed:
+        # independent re-check of the compiled theorems and everything they depend on
+        mod = "RS." + prop_file[:-2].replace("/", ".")
+        rc, out = sh(["coqchk", "-silent", "-o", "-Q", COQ, "RS", mod], cwd=COQ, timeout=3600)
+        m = re.search(r"\* Axioms:(.*?)\n\s*\n\* Constants", out, re.S)
+        axioms = m.group(1).strip() if m else "?"
+        rep.coverage["coqchk"] = {"cmd": "coqchk -silent -o -Q . RS %s" % mod, "exit": rc, "axioms": axioms}
+        bad_ax = [a for a in re.findall(r"^\s*([\w.']+)", axioms, re.M) if a not in ("<none>",) and a not in allowed_axioms and a not in ALLOWED_AXIOMS]
+        if rc != 0 or "<none>" not in axioms and bad_ax:
+            rep.violation("coqchk does not accept %s (exit %d, axioms: %s)" % (mod, rc, axioms[:300]), {"coqchk": out[-2000:]}, False)
+            ok_all = False
     if failed:
         rep.violation("theorems with unexpected assumptions: %s" % failed, {"assumptions": failed}, False)
         ok_all = False
